@@ -179,7 +179,7 @@ class ReplDict(SyncObjConsumer):
         self.__data[key] = value
 
     @replicated
-    def setdefault(self, key, default):
+    def setdefault(self, key, default=None):
         """Return value for specified key, set default value if key not exist"""
         return self.__data.setdefault(key, default)
 
